@@ -106,7 +106,7 @@ def tlc(module, cwd, cfg=None, env=None, workers=1, timeout=900, lib=None, extra
     gen = dist = 0
     for m in _STAT.finditer(out):
         gen, dist = int(m.group(1)), int(m.group(2))
-    violated = "is violated" in out or ("Assumption" in out and "is false" in out)
+    violated = "is violated" in out or "was violated" in out or ("Assumption" in out and "is false" in out)
     ok = (p.returncode == 0) and "Error:" not in out
     for f in os.listdir(cwd):
         if "_TTrace_" in f:
